@@ -223,7 +223,8 @@ set_option maxHeartbeats 1000000 in
 theorem leafNode_cert {n m : Nat} {nb : Nbrs} (hnb : NbOK nb n)
     (hlenm : ∀ o : List Nat, o.Perm (List.range n) → (certPos nb o n).length = m)
     {s s' : LS} {lv : List (Nat × Nat)}
-    (hq : StepQ n nb s.currentBest s.firstLeaf (VAny nb s.currentBest s.firstLeaf) (VN nb s.currentBest s.firstLeaf))
+    (hq : StepQ n nb s.currentBest s.firstLeaf (VAny nb s.currentBest s.firstLeaf) (VN nb s.currentBest s.firstLeaf)
+      (VN nb s.currentBest s.firstLeaf))
     (hc : Core n s) (hl : LevelsOK s.op s.path s.choices lv) (hage : s.op.age = s.path.length)
     (hg : GInv n m nb s)
     (hvc : VClean nb s.op) (hspl : s.op.spl = n)
@@ -389,10 +390,11 @@ theorem leafNode_cert {n m : Nat} {nb : Nbrs} (hnb : NbOK nb n)
 
 /-- the certificate closure properties of the stepping loops -/
 theorem certStepQ (hx : ExpandCert) (n : Nat) (nb : Nbrs) (cb fl : Sl Nat) :
-    StepQ n nb cb fl (VAny nb cb fl) (VN nb cb fl) where
+    StepQ n nb cb fl (VAny nb cb fl) (VN nb cb fl) (VN nb cb fl) where
   na := fun _ h => h.any
+  sa := fun _ h => h.any
   deage := fun _ _ hp ha hage hv hd => deage_cert hp ha hage hv hd
-  split := fun _ _ _ _ hp ha hi hns hv hs => splitBin_cert hx hp ha hi hns hv hs
+  split := fun _ _ _ _ hp ha hi hns _ hv hs => splitBin_cert hx hp ha hi hns hv hs
 
 /-- at a leaf (all bins singletons) the whole order is the prefix -/
 theorem leaf_clean {n : Nat} {nb : Nbrs} {cb fl : Sl Nat} {op : OP} (hp : PartInv n op) (hleaf : op.binDividers.len = n)
@@ -427,25 +429,55 @@ theorem GInv.of_stepFrame {n m : Nat} {nb : Nbrs} {s s' : LS} (h : GInv n m nb s
 
 /-! ## an additional invariant of `order` (the vertex classes) through the main loop -/
 
-/-- closure properties of an invariant `PO` of the partition that concerns only `order`, the dividers and their ages;
-`PL` is what it says about the order of a leaf, `R` what follows for the map between two such leaves -/
-structure OrdQ (n : Nat) (nb : Nbrs) (PO : OP → Prop) (PL R : List Nat → Prop) : Prop where
+/-- closure properties of an additional invariant of the partition through the whole search: `QA` holds at all times,
+`QN` at a node (after a refinement that has not reported "worse", after a `deage`), `QS` after a `splitBin` (the state
+handed to the refinement; also the initial partition). `PL` is what `QN` says about the order of a leaf, `R` what follows
+for the map between two such leaves. -/
+structure OrdQ (n : Nat) (nb : Nbrs) (QA QN QS : OP → Prop) (PL R : List Nat → Prop) : Prop where
+  na : ∀ op, QN op → QA op
+  sa : ∀ op, QS op → QA op
   frame : ∀ op op' : OP, op'.order = op.order → op'.binDividers = op.binDividers → op'.binAges = op.binAges →
-    PO op → PO op'
-  deage : ∀ op op', PartInv n op → AgeInv op → 0 < op.age → PO op → deage op = .ok op' → PO op'
+    op'.binsToCheck = op.binsToCheck → op'.age = op.age → op'.inCell = op.inCell → QN op → QN op'
+  deage : ∀ op op', PartInv n op → AgeInv op → 0 < op.age → QA op → deage op = .ok op' → QN op'
   split : ∀ (cb fl : Sl Nat) op op' i w, PartInv n op → AgeInv op → i < n → NonSingleton op.binDividers.toList i →
-    PO op → splitBin nb cb fl op i = .ok (w, op') → PO op'
-  refine : ∀ (cb fl : Sl Nat) (opts : Options) op op' sc sc' w, PartInv n op → AgeInv op → ScratchOK n sc → PO op →
-    refine nb cb fl opts op sc = .ok (w, op', sc') → PO op'
-  leaf : ∀ op : OP, PO op → PL op.order.toList
+    (∀ t, t < binStartOf op.binDividers.toList i → t + 1 ∈ op.binDividers.toList) →
+    QN op → splitBin nb cb fl op i = .ok (w, op') → (w = false → QS op') ∧ (w = true → QA op')
+  refine : ∀ (cb fl : Sl Nat) (opts : Options) op op' sc sc' w, PartInv n op → AgeInv op → ScratchOK n sc →
+    sc.timesSeen.len = n → QS op →
+    refine nb cb fl opts op sc = .ok (w, op', sc') → (w = false → QN op') ∧ (w = true → QA op')
+  leaf : ∀ op : OP, PartInv n op → AgeInv op → QN op → op.binDividers.len = n → PL op.order.toList
   rel : ∀ o1 o2 : List Nat, o1.Perm (List.range n) → o2.Perm (List.range n) → PL o1 → PL o2 → R (transport n o1 o2)
 
-theorem OrdQ.stepQ {n : Nat} {nb : Nbrs} {PO : OP → Prop} {PL R : List Nat → Prop} (h : OrdQ n nb PO PL R)
-    (cb fl : Sl Nat) : StepQ n nb cb fl PO PO where
-  na := fun _ hq => hq
+theorem OrdQ.stepQ {n : Nat} {nb : Nbrs} {QA QN QS : OP → Prop} {PL R : List Nat → Prop} (h : OrdQ n nb QA QN QS PL R)
+    (cb fl : Sl Nat) : StepQ n nb cb fl QA QN QS where
+  na := h.na
+  sa := h.sa
   deage := fun op op' hp ha hage hq hd => h.deage op op' hp ha hage hq hd
-  split := fun op op' i w hp ha hi hns hq hs =>
-    ⟨fun _ => h.split cb fl op op' i w hp ha hi hns hq hs, fun _ => h.split cb fl op op' i w hp ha hi hns hq hs⟩
+  split := fun op op' i w hp ha hi hns hf hq hs => h.split cb fl op op' i w hp ha hi hns hf hq hs
+
+/-- an invariant that does not distinguish the three kinds of states -/
+theorem OrdQ.ofSimple {n : Nat} {nb : Nbrs} {PO : OP → Prop} {PL R : List Nat → Prop}
+    (hframe : ∀ op op' : OP, op'.order = op.order → op'.binDividers = op.binDividers → op'.binAges = op.binAges →
+      PO op → PO op')
+    (hdeage : ∀ op op', PartInv n op → AgeInv op → 0 < op.age → PO op → CanonF.deage op = .ok op' → PO op')
+    (hsplit : ∀ (cb fl : Sl Nat) op op' i w, PartInv n op → AgeInv op → i < n → NonSingleton op.binDividers.toList i →
+      PO op → splitBin nb cb fl op i = .ok (w, op') → PO op')
+    (hrefine : ∀ (cb fl : Sl Nat) (opts : Options) op op' sc sc' w, PartInv n op → AgeInv op → ScratchOK n sc → PO op →
+      CanonF.refine nb cb fl opts op sc = .ok (w, op', sc') → PO op')
+    (hleaf : ∀ op : OP, PO op → PL op.order.toList)
+    (hrel : ∀ o1 o2 : List Nat, o1.Perm (List.range n) → o2.Perm (List.range n) → PL o1 → PL o2 →
+      R (transport n o1 o2)) :
+    OrdQ n nb PO PO PO PL R where
+  na := fun _ h => h
+  sa := fun _ h => h
+  frame := fun op op' e1 e2 e3 _ _ _ h => hframe op op' e1 e2 e3 h
+  deage := hdeage
+  split := fun cb fl op op' i w hp ha hi hns _ h hs =>
+    ⟨fun _ => hsplit cb fl op op' i w hp ha hi hns h hs, fun _ => hsplit cb fl op op' i w hp ha hi hns h hs⟩
+  refine := fun cb fl opts op op' sc sc' w hp ha hsc _ h hr =>
+    ⟨fun _ => hrefine cb fl opts op op' sc sc' w hp ha hsc h hr, fun _ => hrefine cb fl opts op op' sc sc' w hp ha hsc h hr⟩
+  leaf := fun op _ _ h _ => hleaf op h
+  rel := hrel
 
 /-- the reference leaves satisfy `PL`, the recorded generators satisfy `R` -/
 structure KInv (PL R : List Nat → Prop) (n : Nat) (s : LS) : Prop where
@@ -504,13 +536,14 @@ theorem sameCert_cls {n : Nat} {R : List Nat → Prop} {order pinv : Sl Nat} {o1
 
 set_option maxHeartbeats 1000000 in
 /-- the leaf branch keeps `KInv` and the invariant of `order` -/
-theorem leafNode_cls {n m : Nat} {nb : Nbrs} {PO : OP → Prop} {PL R : List Nat → Prop} (hO : OrdQ n nb PO PL R)
+theorem leafNode_cls {n m : Nat} {nb : Nbrs} {QA QN QS : OP → Prop} {PL R : List Nat → Prop}
+    (hO : OrdQ n nb QA QN QS PL R)
     {s s' : LS} {lv : List (Nat × Nat)}
     (hc : Core n s) (hl : LevelsOK s.op s.path s.choices lv) (hage : s.op.age = s.path.length)
-    (hg : GInv n m nb s) (hk : KInv PL R n s) (hpo : PO s.op)
+    (hg : GInv n m nb s) (hk : KInv PL R n s) (hpo : QN s.op) (hleaf : s.op.binDividers.len = n)
     (h : leafNode n m s = .ok s') :
-    KInv PL R n s' ∧ PO s'.op := by
-  have hpl : PL s.op.order.toList := hO.leaf _ hpo
+    KInv PL R n s' ∧ QN s'.op := by
+  have hpl : PL s.op.order.toList := hO.leaf _ hc.part hc.age hpo hleaf
   have holen : s.op.order.toList.length = n := by rw [Sl.length_toList _ hc.part.wfOrder, hc.part.lenOrder]
   unfold leafNode at h
   dsimp only at h
@@ -606,10 +639,10 @@ theorem leafNode_cls {n m : Nat} {nb : Nbrs} {PO : OP → Prop} {PL R : List Nat
 
 set_option maxHeartbeats 1000000 in
 theorem mainLoop_cert (hst : StablePerm) (hx : ExpandCert) {n m : Nat} {nb : Nbrs}
-    {PO : OP → Prop} {PL R : List Nat → Prop} (hO : OrdQ n nb PO PL R)
+    {QA QN QS : OP → Prop} {PL R : List Nat → Prop} (hO : OrdQ n nb QA QN QS PL R)
     (hnb : NbOK nb n) (hlenm : ∀ o : List Nat, o.Perm (List.range n) → (certPos nb o n).length = m) :
     ∀ (fuel : Nat) (worse : Bool) (s s' : LS), MInv n m nb s → (s.count = 0 → worse = false) → CInv n m nb s worse →
-      KInv PL R n s → PO s.op →
+      KInv PL R n s → ((worse = false → QN s.op) ∧ QA s.op) →
       mainLoop nb n m fuel worse s = .ok s' → GInv n m nb s' ∧ 0 < s'.count ∧ KInv PL R n s' := by
   intro fuel
   induction fuel with
@@ -656,24 +689,28 @@ theorem mainLoop_cert (hst : StablePerm) (hx : ExpandCert) {n m : Nat} {nb : Nbr
             have hwt : worse = true := by simpa using hnw
             exact ⟨hC.g, hC.va, fun hsk => (by rw [hI.skip] at hsk; cases hsk), fun hwf => (by rw [hwt] at hwf; cases hwf)⟩
       obtain ⟨gg1, va1, vs1, _⟩ := hcert1
-      have hcls1 : KInv PL R n s1 ∧ PO s1.op := by
+      have hcls1 : KInv PL R n s1 ∧ QA s1.op ∧ (s1.skipDeage = true → QN s1.op) := by
         by_cases hleaf : (!worse && s.op.binDividers.len == n) = true
         · rw [if_pos hleaf] at hs1
-          exact leafNode_cls hO hI.core hlv hI.age hC.g hK hP hs1
+          simp only [Bool.and_eq_true, Bool.not_eq_true', beq_iff_eq] at hleaf
+          obtain ⟨q1, q2⟩ := leafNode_cls hO hI.core hlv hI.age hC.g hK (hP.1 hleaf.1) hleaf.2 hs1
+          exact ⟨q1, hO.na _ q2, fun _ => q2⟩
         · rw [if_neg hleaf] at hs1
           by_cases hnw : (!worse) = true
           · rw [if_pos hnw] at hs1
+            have hwf : worse = false := by simpa using hnw
+            have hqn := hP.1 hwf
             unfold innerNode at hs1
             split at hs1
             · cases hs1
-              exact ⟨⟨hK.best, hK.first, hK.gens⟩, hP⟩
+              exact ⟨⟨hK.best, hK.first, hK.gens⟩, hO.na _ hqn, fun _ => hqn⟩
             · cases hs1
-              exact ⟨hK, hP⟩
+              exact ⟨hK, hO.na _ hqn, fun _ => hqn⟩
             · cases hs1
             · cases hs1
           · rw [if_neg hnw] at hs1
             cases hs1
-            exact ⟨hK, hP⟩
+            exact ⟨hK, hP.2, fun hsk => (by rw [hI.skip] at hsk; cases hsk)⟩
       cases hst2 : stepLoop nb s1.path.length s1 with
       | panic => rw [hst2] at h; cases h
       | outOfFuel => rw [hst2] at h; cases h
@@ -688,8 +725,8 @@ theorem mainLoop_cert (hst : StablePerm) (hx : ExpandCert) {n m : Nat} {nb : Nbr
         have hsc : s2.sc = s1.sc := by rw [fr2]
         have gg2 : GInv n m nb s2 := gg1.of_stepFrame fr2 z2
         have kk2 : KInv PL R n s2 := hcls1.1.of_stepFrame fr2
-        obtain ⟨_, _, _, _, _, _, _, _, po2, _⟩ := stepLoop_spec (hO.stepQ s1.currentBest s1.firstLeaf)
-          _ s1 lv1 b s2 c1 l1 g1 rfl rfl hcls1.2 (fun _ => hcls1.2) hst2
+        obtain ⟨_, _, _, _, _, _, _, ps2, _, _⟩ := stepLoop_spec (hO.stepQ s1.currentBest s1.firstLeaf)
+          _ s1 lv1 b s2 c1 l1 g1 rfl rfl hcls1.2.1 hcls1.2.2 hst2
         cases b with
         | false =>
           simp only at h
@@ -716,7 +753,13 @@ theorem mainLoop_cert (hst : StablePerm) (hx : ExpandCert) {n m : Nat} {nb : Nbr
             have hvn2 : VN nb s2.currentBest s2.firstLeaf s2.op := by rw [hcb, hfl]; exact n2 rfl
             obtain ⟨rc1, rc2⟩ := refine_cert hst hx c2.part c2.age c2.scr hvn2 hr
             refine ih worse' _ s' ?_ ?_ ?_ (by exact ⟨kk2.best, kk2.first, kk2.gens⟩)
-              (by exact hO.refine _ _ _ _ _ _ _ _ c2.part c2.age c2.scr po2 hr) h
+              (by
+                obtain ⟨x1, x2⟩ := hO.refine _ _ _ _ _ _ _ _ c2.part c2.age c2.scr
+                  (by rw [hsc, esc]; exact hI.tsLen) (ps2 rfl) hr
+                refine ⟨x1, ?_⟩
+                cases worse' with
+                | false => exact hO.na _ (x1 rfl)
+                | true => exact x2 rfl) h
             · constructor
               · constructor
                 · exact r1
@@ -730,6 +773,7 @@ theorem mainLoop_cert (hst : StablePerm) (hx : ExpandCert) {n m : Nat} {nb : Nbr
               · show op'.age = _; rw [r3]; exact hage2
               · exact hskip
               · show n ≤ sc'.timesSeen.data.size; omega
+              · rfl
               · intro h0
                 have h0' : s1.count = 0 := by
                   have : s2.count = 0 := h0
@@ -767,15 +811,15 @@ theorem dsSlice_spec {a : Array Int} {n : Nat} {ds rest : Array Int} (h : dsSlic
 set_option maxHeartbeats 1000000 in
 /-- generators and orbits returned by `CanonicalIsomorphAllocated` (general path, no viability check) -/
 theorem allocated_cert (hst : StablePerm) (hx : ExpandCert) {fuel n m : Nat} {nb : Nbrs}
-    {PO : OP → Prop} {PL R : List Nat → Prop} (hO : OrdQ n nb PO PL R)
+    {QA QN QS : OP → Prop} {PL R : List Nat → Prop} (hO : OrdQ n nb QA QN QS PL R)
     {op0 : OP} {st : Storage} {opts : Options} {r : Res} {opR : Option OP} {stR : Storage}
     (hn : n ≠ 0) (hgen : m = 0 → op0.binDividers.len ≠ 1) (hv : opts.checkViability = false)
     (hp : PartInv n op0) (ha : AgeInv op0) (hage : op0.age = 0) (hspl : op0.spl = 0)
-    (hval : op0.value.len = 0) (hpo : PO op0)
+    (hval : op0.value.len = 0) (hpo : QS op0)
     (hnb : NbOK nb n) (hlenm : ∀ o : List Nat, o.Perm (List.range n) → (certPos nb o n).length = m)
     (h : canonicalIsomorphAllocated fuel n m nb (some op0) st opts = .ok (r, opR, stR)) :
     ∃ gs ds, r.gens = some gs ∧ r.orbits = some ds ∧ (∀ γ ∈ gs, IsAutL nb n γ ∧ R γ) ∧ ds.length = n ∧
-      Disjoint.Inv ds.toArray ∧
+      Disjoint.Inv ds.toArray ∧ (∃ p, r.perm = some p ∧ PL p) ∧
       ∀ a b, a < n → b < n → Disjoint.rep ds.toArray a = Disjoint.rep ds.toArray b →
         EqvGen (fun x y => ∃ γ ∈ gs, γ[x]? = some y) a b := by
   unfold canonicalIsomorphAllocated at h
@@ -811,7 +855,7 @@ theorem allocated_cert (hst : StablePerm) (hx : ExpandCert) {fuel n m : Nat} {nb
       unfold expandValue at hexp
       exact expandLoop_not_worse (cb := ⟨st.currentBest, 0⟩) rfl _ _ _ _ _ hexp
     have hvc2 : VClean nb op2 := (hx n nb ⟨st.currentBest, 0⟩ firstLeaf op1 op2 w2 r1 i1 i2 i3 hexp).1 hw2
-    obtain ⟨f1, f2, f3, _, f5, f6⟩ := expandValue_frame hexp
+    obtain ⟨f1, f2, f3, f4, f5, f6⟩ := expandValue_frame hexp
     have hI : MInv n m nb
         { op := op2,
           sc := { dws := ⟨sc1.dws.data, n⟩, nbs := ⟨sc1.nbs.data, n⟩, space := ⟨sc1.space.data, n⟩,
@@ -833,6 +877,7 @@ theorem allocated_cert (hst : StablePerm) (hx : ExpandCert) {fuel n m : Nat} {nb
       · show op2.age = _; rw [f5, r3, hage]; rfl
       · rfl
       · show n ≤ sc1.timesSeen.data.size; omega
+      · rfl
       · intro _; rfl
       · intro hc; exact absurd hc (Nat.lt_irrefl 0)
     have hC : CInv n m nb
@@ -856,12 +901,12 @@ theorem allocated_cert (hst : StablePerm) (hx : ExpandCert) {fuel n m : Nat} {nb
         · exact ⟨l5, w5⟩
       · intro _; exact hvc2
       · exact Or.inl hvc2
-    have hpo2 : PO op2 := hO.frame _ _ f1 f2 f3 (hO.refine _ _ _ _ _ _ _ _ hp ha hsc hpo href)
+    have hpo2 : QN op2 := hO.frame _ _ f1 f2 f3 f4 f5 f6 ((hO.refine _ _ _ _ _ _ _ _ hp ha hsc l1 hpo href).1 hwf)
     obtain ⟨q1, q2, q3⟩ := mainLoop_cert hst hx hO hnb hlenm fuel worse _ s hI (fun _ => hwf) hC
       ⟨fun hc => absurd hc (Nat.lt_irrefl 0), fun hc => absurd hc (Nat.lt_irrefl 0),
-        fun k hk => absurd hk (Nat.not_lt_zero _)⟩ hpo2 hmain
+        fun k hk => absurd hk (Nat.not_lt_zero _)⟩ ⟨fun _ => hpo2, hO.na _ hpo2⟩ hmain
     obtain ⟨o1, o2⟩ := q1.orb q2
-    refine ⟨_, _, rfl, rfl, ?_, ?_, ?_, ?_⟩
+    refine ⟨_, _, rfl, rfl, ?_, ?_, ?_, ⟨_, rfl, q3.best q2⟩, ?_⟩
     · intro γ hγ
       obtain ⟨t, ht, rfl⟩ := List.mem_map.1 hγ
       obtain ⟨k, hk⟩ := List.getElem?_of_mem ht
